@@ -225,8 +225,8 @@ class GIsoCmdHelper(FormulaHelper):
     @staticmethod
     def build_formula(args, formula_class):
         G = args.G
-        if hasattr(args, 'G2'):
-            G2 = args.G2
+        if getattr(args, 'e', None) is not None:
+            G2 = args.e
             return GraphIsomorphism(G, G2,
                                     formula_class=formula_class)
         else:
